@@ -49,6 +49,10 @@ def _gen(ctx):
     outer = REMOVABLE[ctx.params["outer"]] if "outer" in ctx.params else REMOVABLE[ctx.choice("outer", len(REMOVABLE))]
     toks = [("start", "p"), ("text", "AAA"), ("end", "p")]
     hidden = []
+    stray = ctx.params.get("mode") == "stray"
+    if stray and ctx.flag("stray_end_before"):
+        # a stray end tag in the visible region is ignored by HTML; it must not disturb removal
+        toks.append(("end", _sym_tag(ctx, "pre_end")))
     form = 0
     if outer in VOID_REMOVABLE:
         # <embed> is a void element: it has no content and no end tag, what follows is
@@ -59,10 +63,10 @@ def _gen(ctx):
         hidden.append("HC0")
     toks.append(("start", outer))
     if form == 0:
-        k = ctx.choice("n_items", n_items + 1)
+        k = ctx.choice("n_items", (1 if stray else n_items) + 1)
         depth = 1
         for i in range(k):
-            kind = ctx.choice(f"kind{i}", 5)
+            kind = 0 if stray else ctx.choice(f"kind{i}", 5)
             if kind == 0:
                 toks.append(("text", f"HT{i}"))
                 hidden.append(f"HT{i}")
@@ -91,6 +95,8 @@ def _gen(ctx):
                 ctx.assume(depth >= 1)
         ctx.assume(depth == 1)
         toks.append(("end", outer))
+    if stray and ctx.flag("stray_end_after"):
+        toks.append(("end", _sym_tag(ctx, "post_end")))
     toks += [("start", "p"), ("text", "BBB"), ("end", "p")]
     return toks, ["AAA", "BBB"], hidden, outer
 
@@ -217,7 +223,8 @@ def _public_replay(kernel, tier, params, inputs):
 
 def _parts(tier):
     items = 2 if tier == "quick" else 3
-    return [{"target": t, "outer": o, "items": items} for t in ("html", "epub") for o in range(len(REMOVABLE))]
+    return [{"target": t, "outer": o, "items": items, "mode": md} for t in ("html", "epub")
+            for o in range(len(REMOVABLE)) for md in ("inner", "stray")]
 
 
 def _targets():
@@ -230,10 +237,11 @@ def _targets():
 
 k = Kernel("K1", "removal state machine of both HTML-family parsers on symbolic element content",
            k1, targets=_targets, parts=_parts,
-           perturb=[("expect_hidden_visible", {"target": "html", "outer": 2, "items": 2})],
+           perturb=[("expect_hidden_visible", {"target": "html", "outer": 2, "items": 2, "mode": "inner"})],
            symbolic=["tag name of every inner start/end/self-closing tag (lower-case letters/digits, length "
                      "1,2,3,5,6 - so br/img/embed/param/script/object/... and the outer element's own name are all reachable)"],
            choices=["outer removable element (embed only in its void form)", "number and kind of inner items",
+                    "stray end tag (symbolic name, may be the removable's own) before / after the element",
                     "comment before the element"],
            assumptions=["inner unclosed start tags are not script/style (those swallow the rest of the document by "
                         "HTML's own rules)",
